@@ -491,7 +491,9 @@ class CParser:
         self._tokens.reset(mark)
 
     def _tok_coord(self, tok: Token) -> Coord:
-        return self._coord(tok.lineno, tok.column)
+        # The file is the one the token was lexed in, not the lexer's current
+        # one: lookahead may already have crossed a #line directive.
+        return Coord(file=tok.filename, line=tok.lineno, column=tok.column)
 
     def _starts_declaration(self, tok: Optional[Token] = None) -> bool:
         tok = tok or self._peek()
